@@ -76,6 +76,9 @@ func pkixPublicKeyAttributes(k asn1struct.PKIXPublicKey) []Attribute {
 		attrs = x25519PublicKeyAttributes()
 	case k.Algorithm.Algorithm.Equal(oid.X448):
 		attrs = x448PublicKeyAttributes()
+	default:
+		// an algorithm without a name here is shown by the identifier that is encoded
+		attrs = append(attrs, Attribute{"Algorithm", k.Algorithm.Algorithm.String()})
 	}
 
 	return attrs
